@@ -258,6 +258,15 @@ def tsProg : Prog :=
 def tsS : Sig := { tsSig with fns := tsProg.fns }
 
 example : okProg tsS tsProg = true := by decide +kernel
+-- closures and function values: `let k = 3; let add = |x: int32| x + k; let f = ident; add(f(4))`
+example : okE tsProg [] []
+    (.letE "k" (.prim (.int 32 true 3))
+      (.letE "add" (.closure (.func [.int 32 true] (.int 32 true)) [("x", .int 32 true)]
+          (.bin .add (.int 32 true) (.var "x" (.int 32 true)) (.var "k" (.int 32 true))))
+        (.letE "f" (.var "ident" (.func [.int 32 true] (.int 32 true)))
+          (.call (.int 32 true) (.var "add" (.func [.int 32 true] (.int 32 true)))
+            [.call (.int 32 true) (.var "f" (.func [.int 32 true] (.int 32 true))) [.prim (.int 32 true 4)]])))) = true := by
+  decide +kernel
 example : wtProg tsS = true := by decide +kernel
 example : (run 100 tsProg).out = "7\n" ∧ (run 100 tsProg).status = "ok" := by decide +kernel
 -- what the fragment refuses: the field read outside the arm that established the variant
@@ -266,7 +275,13 @@ example : okE tsProg [("o", .app (.enum "Opt") [.int 32 true])] []
 -- ... which `Wt` accepts although `Sem` would read a field of `None`
 example : wt tsS [("o", .app (.enum "Opt") [.int 32 true])]
     (.cget (.enum "Opt" "Some" 1) 0 (.int 32 true) (.var "o" (.app (.enum "Opt") [.int 32 true]))) = true := by decide +kernel
--- a dispatch row naming a function of another signature is refused
+-- weakness (2): `Wt` accepts a struct constructor annotated with the ENUM type of the same name (`nominalArgs` looks at the name only)
+example : wt { tsS with enums := [] } [] (.constr (.struct "S") (.enum "S") [.prim (.int 32 true 1)]) = true ∧
+    ctorTyOk (.struct "S") (.enum "S") = false := by decide +kernel
+-- weakness (4): `Wt` compares a callee annotation with the arguments up to the wildcard array length; the fragment asks for equality
+example : compatTys [.array Gen.arrayWildcardLen .bool] [.array 3 .bool] = true ∧
+    tyBeq (.func [.array Gen.arrayWildcardLen .bool] .bool) (.func [.array 3 .bool] .bool) = false := by decide +kernel
+-- weakness (3): `Wt` accepts the trait call whatever the dispatch table says; a dispatch row naming a function of another signature is refused
 example : dispatchOk { tsProg with impls := [("A", "S", "foo", "unwrap")] } "A" "foo" (.struct "S") [] .string = false := by
   decide +kernel
 -- the receiver of a bounded generic function at the instance `T := S`: the key is that of `S`
